@@ -659,6 +659,33 @@ func (w *rpcWorld) edgeSlot(h func(body string) (int, string, any), method strin
 	return c
 }
 
+// mainnet-beta's genesis hash (public constant; the genesis archive every epoch-0 configuration of the fixture points at)
+const rpcMainnetGenesisHash = "5eykt4UsFv8P8NJdTREpY1vzqKqZKvdpKuc147dw2N9d"
+
+// getGenesisHash: answered from epoch 0's genesis configuration, available exactly when epoch 0 is loaded
+func (w *rpcWorld) genesisHash(h func(body string) (int, string, any)) rpcCall {
+	c := rpcCall{Op: "getGenesisHash", Proto: "json", Slot: -1, Sigs: []int{}}
+	_, out, p := h(`{"jsonrpc":"2.0","id":1,"method":"getGenesisHash","params":[]}`)
+	if p != nil {
+		c.Status, c.Detail = "panic", fmt.Sprint(p)
+		return c
+	}
+	var resp struct {
+		Result *string        `json:"result"`
+		Error  map[string]any `json:"error"`
+	}
+	if err := json.Unmarshal([]byte(out), &resp); err != nil {
+		c.Status = "error"
+	} else if resp.Error != nil {
+		c.Status, c.Detail = rpcStatusFromJSONError(resp.Error)
+	} else if resp.Result == nil {
+		c.Status = "notfound"
+	} else {
+		c.Status, c.Txsame, c.Detail = "ok", *resp.Result == rpcMainnetGenesisHash, *resp.Result
+	}
+	return c
+}
+
 // getNode: Epoch.GetNodeByCid for a CID of epoch i (stored: section index >= 0) or an absent CID
 func (w *rpcWorld) getNode(i int, c cid.Cid, section int, alias bool) rpcCall {
 	call := rpcCall{Op: "getNode", Proto: "epoch", Slot: int64(w.eps[i].built.Spec.Epoch), Sig: section, Sigs: []int{}, Alias: alias}
@@ -849,7 +876,7 @@ func TestVerifC02(t *testing.T) {
 					}
 				}
 			}
-			o.Calls = append(o.Calls, w.edgeSlot(h, "getSlot"), w.edgeSlot(h, "getFirstAvailableBlock"))
+			o.Calls = append(o.Calls, w.edgeSlot(h, "getSlot"), w.edgeSlot(h, "getFirstAvailableBlock"), w.genesisHash(h))
 			// the same keys through one bidirectional Get stream (archived keys interleaved with absent ones: an in-band error
 			// must not end or shift the stream)
 			{
